@@ -899,7 +899,7 @@ def inline_module_constants(tree, known_names=None):
 
 
 # ------------------------------------------------------------------------------------------------ P0b numpy spellings
-_METHOD_FORM = {"sum", "any", "all", "cumsum", "prod"}
+_METHOD_FORM = {"sum", "any", "all", "cumsum", "prod", "squeeze", "ravel"}
 
 
 def numpy_spellings(tree):
@@ -958,6 +958,10 @@ def numpy_spellings(tree):
                 # square(x) is x * x element-wise, the value of x ** 2 (the repository writes the power)
                 count[0] += 1
                 return ast.copy_location(ast.BinOp(left=n.args[0], op=ast.Pow(), right=ast.Constant(value=2)), n)
+            if nm == "reciprocal" and len(n.args) == 1 and not n.keywords:
+                # reciprocal(x) is 1 / x for the float arrays of this package
+                count[0] += 1
+                return ast.copy_location(ast.BinOp(left=ast.Constant(value=1.0), op=ast.Div(), right=n.args[0]), n)
             if nm == "full" and len(n.args) == 2 and not n.keywords:
                 # full(n, v) holds v in every cell: zeros(n) + v (the repository's spelling); the name `zeros` is numpy's either way
                 count[0] += 1
@@ -990,7 +994,7 @@ def numpy_spellings(tree):
                 count[0] += 1
                 return ast.copy_location(ast.Name(id=n.attr, ctx=ast.Load()), n)
             return n
-    if not aliases and not (set(from_numpy.values()) & (_METHOD_FORM | {"transpose", "newaxis", "square", "matmul", "full"})):
+    if not aliases and not (set(from_numpy.values()) & (_METHOD_FORM | {"transpose", "newaxis", "square", "matmul", "full", "reciprocal"})):
         return 0
     V().visit(tree)
     if added:
